@@ -76,6 +76,17 @@ fn check_op(sop: &SOp, proto: &[u8], obs: &mut Obs) -> Verdict {
         Ok(v) => v,
         Err(p) => return Verdict::Fail(format!("{:?}.iter_changes: {}", op, p)),
     };
+    // the three accessors of a change's value agree
+    match guard(|| {
+        op.iter_changes(&old[..], &new[..]).all(|mut c: Change<u32>| {
+            let v = c.value();
+            *c.value_ref() == v && *c.value_mut() == v
+        })
+    }) {
+        Ok(true) => {}
+        Ok(false) => return Verdict::Fail(format!("{:?}: Change::value_ref()/value_mut() disagree with value()", op)),
+        Err(p) => return Verdict::Fail(format!("{:?}.iter_changes: {}", op, p)),
+    }
     let want = expect_changes(&op);
     if got != want {
         return Verdict::Fail(format!("{:?}.iter_changes = {:?}, expected {:?}", op, got, want));
@@ -316,11 +327,13 @@ fn check_text(c: &TextCase, radius: usize, obs: &mut Obs) -> Verdict {
     let r = if c.use_bytes() {
         guard(|| {
             let d = diff_bytes(&cfg, c.tok, &c.old.0, &c.new.0);
+            exercise(&d, c.opt);
             judge_text(&d, radius, obs)
         })
     } else {
         guard(|| {
             let d = diff_str(&cfg, c.tok, c.old.as_str().unwrap(), c.new.as_str().unwrap());
+            exercise(&d, c.opt);
             judge_text(&d, radius, obs)
         })
     };
